@@ -168,7 +168,17 @@ def bad_body(pos: int, a: int) -> bool:
 
 
 # ----------------------------------------------------------------------------- 3. chunking
-STREAMS = {"2": (F1 + F2, [11, 22]), "3": (F1 + F2 + F3, [11, 22, 33]), "2b": (F2 + F3, [22, 33])}
+def _h20(hbh):
+    m = B.Message()
+    m.header.command_code = 999
+    m.header.is_request = True
+    m.header.hop_by_hop_identifier = hbh
+    return m.as_bytes()
+
+
+H20a, H20b = _h20(44), _h20(55)          # header-only messages: exactly 20 bytes
+STREAMS = {"2": (F1 + F2, [11, 22]), "3": (F1 + F2 + F3, [11, 22, 33]), "2b": (F2 + F3, [22, 33]),
+           "3h": (H20a + F1 + H20b, [44, 11, 55]), "2h": (F3 + H20a, [33, 44])}
 
 
 def cut1(a: int) -> bool:
@@ -220,7 +230,7 @@ def specs(tier, seed, carve):
     n3 = len(F1) + len(F2) + len(F3)
     for pos in (0, 1, 2):
         out.append(dict(id="bad_body/%d" % pos, fn="bad_body", params={"n": n3, "pos": pos}, timeout=400, bound="undecodable body (correct length) at position %d of 3 x every cut position" % pos))
-    for st in ("2", "2b", "3"):
+    for st in ("2", "2b", "3", "3h", "2h"):
         out.append(dict(id="cut1/" + st, fn="cut1", params={"stream": st}, timeout=400, bound="every single cut position of stream %s (%d bytes)" % (st, len(STREAMS[st][0]))))
     for st in (("2",) if q else ("2", "3")):
         n = len(STREAMS[st][0])
